@@ -432,6 +432,26 @@ func init() {
 			})
 			w.c19Pass("template-target-status", shape, "tm", KOT("t1"))
 		}
+		// availability probe entries whose probe list is empty or holds only a probe of no known type (both valid per CRD),
+		// selecting an object that exists with a current status
+		for _, shape := range []string{"emptyList", "emptyProbe", "twoEmptyProbes"} {
+			w.Reset("shape-probes-" + shape)
+			os1 := NewObjectSet("a1", []PhaseSpec{{Name: "p1", Objects: []*unstructured.Unstructured{Widget("w1", 1)}}})
+			pr := corev1alpha1.ObjectSetProbe{Selector: corev1alpha1.ProbeSelector{Kind: &corev1alpha1.PackageProbeKindSpec{Group: gvkWidget.Group, Kind: "Widget"}}}
+			switch shape {
+			case "emptyList":
+				pr.Probes = []corev1alpha1.Probe{}
+			case "emptyProbe":
+				pr.Probes = []corev1alpha1.Probe{{}}
+			case "twoEmptyProbes":
+				pr.Probes = []corev1alpha1.Probe{{}, {}}
+			}
+			os1.Spec.AvailabilityProbes = []corev1alpha1.ObjectSetProbe{pr}
+			w.EnvCreate(os1)
+			w.RunPass("os", KOS("a1"))
+			w.EnvSetWidgetStatus(KW("w1"), "Ready")
+			w.c19Pass("objectset-probes", shape, "os", KOS("a1"))
+		}
 		// the owner's own stored status is input of the next pass: mapped conditions (type with a "/") of an earlier
 		// pass at every position of the condition list
 		for _, shape := range sortedStr(storedCondShapes) {
